@@ -626,7 +626,29 @@ def last_mode(ctx: Ctx):
                             ok = True
                         if isinstance(b, ast.Call) and isinstance(b.func, ast.Attribute) and b.func.attr in ("remove", "discard", "pop") and isinstance(b.func.value, ast.Name) and b.func.value.id in aliases:
                             ok = True
-        res.instance("LAST-MODE", qname, sample={"mttkrp_shortcut": [src(u)[:70] for u in uses], "unfixes_last_mode": ok})
+        # ... and nothing puts the last mode back afterwards: after the guard the fixed list is only ever copied or
+        # filtered, not re-computed element by element (`[m % ndim for m in fixed]` maps -1 onto the last mode again)
+        guard = None
+        for s in own_scope_nodes(f.node):
+            if isinstance(s, ast.If) and isinstance(s.test, ast.Compare) and len(s.test.ops) == 1 and isinstance(s.test.ops[0], ast.In) and isinstance(s.test.comparators[0], ast.Name) and s.test.comparators[0].id in aliases and is_last_axis(s.test.left):
+                guard = s
+        recomputed = None
+        if guard is not None:
+            for s in own_scope_nodes(f.node):
+                if isinstance(s, ast.Assign) and getattr(s, "lineno", 0) > getattr(guard, "end_lineno", guard.lineno) and any(isinstance(tt, ast.Name) and tt.id in aliases for tt in s.targets):
+                    v = s.value
+                    pure = False
+                    if isinstance(v, ast.Name) and v.id in aliases:
+                        pure = True
+                    elif isinstance(v, ast.Call) and isinstance(v.func, ast.Name) and v.func.id in ("list", "tuple", "sorted", "set") and len(v.args) == 1 and isinstance(v.args[0], ast.Name) and v.args[0].id in aliases:
+                        pure = True
+                    elif isinstance(v, (ast.ListComp, ast.GeneratorExp)) and len(v.generators) == 1 and isinstance(v.elt, ast.Name) and isinstance(v.generators[0].target, ast.Name) and v.elt.id == v.generators[0].target.id:
+                        pure = True  # a filter keeps a subset
+                    if not pure:
+                        recomputed = s
+        res.instance("LAST-MODE", qname, sample={"mttkrp_shortcut": [src(u)[:70] for u in uses], "unfixes_last_mode": ok, "fixed_list_recomputed_after_guard": src(recomputed)[:60] if recomputed is not None else None})
+        if ok and recomputed is not None:
+            ctx.finding("LAST-MODE", f, recomputed, f"`{src(recomputed)[:80]}` re-computes the fixed-mode list after the guard that un-fixes the last mode: values the guard did not recognise as the last mode (a negative index) are mapped onto it again, the last mode drops out of the sweep, and the MTTKRP of another mode is paired with factors[-1] in the error computation -- the reported error is then wrong (or the shapes do not match)", construct=f"{f.name}: fixed list recomputed after the last-mode guard")
         if not ok:
             ctx.finding("LAST-MODE", f, uses[0], f"the inner product <tensor, model> is taken from the MTTKRP of the last *swept* mode paired with factors[-1], but nothing keeps the last mode in the sweep when `{fixed}` contains it (the siblings warn and un-fix it): with the last mode fixed the reported error is wrong or the shapes do not match", construct=f"{src(uses[0])[:90]} without un-fixing the last mode")
 
